@@ -50,8 +50,8 @@ func roundTripState(st *core.State) (*core.State, error) {
 
 func runPersist(cfg Config) {
 	enc := json.NewEncoder(out)
-	g := gen.New(cfg.Seed)
 	for i := 0; i < cfg.N; i++ {
+		g := gen.New(cfg.Seed*1000003 + int64(i)) // one stream per case: skipping a case leaves the others as they were
 		c := g.WalkCase("persist")
 		// ECMAScript actions only return JSON-representable values; keep natives out of this property
 		for _, n := range c.Spec.Nodes {
@@ -73,6 +73,11 @@ func runPersist(cfg Config) {
 			c.Msgs = append(c.Msgs, g.Msg())
 		}
 		mark(i)
+		if crashedCases[i] {
+			// the process died while running this case in an earlier attempt
+			enc.Encode(probeLine(i, map[string]interface{}{"crashed": fatalText}, map[string]interface{}{"noPanic": false}, []string{"crashed"}))
+			continue
+		}
 		probe := map[string]interface{}{}
 		feat := []string{}
 		func() {
@@ -177,7 +182,6 @@ const propsMutator = `_.props.top = "changed"; if (_.props.nested) { _.props.nes
 
 func runIsolation(cfg Config) {
 	enc := json.NewEncoder(out)
-	g := gen.New(cfg.Seed)
 	interp := es.NewInterpreter()
 	ctx := context.Background()
 	compile := func(src string) interface{} {
@@ -205,7 +209,13 @@ func runIsolation(cfg Config) {
 			reflect.DeepEqual(gotB, wantB)
 	}
 	for i := 0; i < cfg.N; i++ {
+		g := gen.New(cfg.Seed*1000003 + int64(i)) // one stream per case: skipping a case leaves the others as they were
 		mark(i)
+		if crashedCases[i] {
+			// the process died while running this case in an earlier attempt
+			enc.Encode(probeLine(i, map[string]interface{}{"crashed": fatalText}, map[string]interface{}{"noPanic": false}, []string{"crashed"}))
+			continue
+		}
 		bs := match.Bindings{"keep": "me", "nested": map[string]interface{}{"deep": map[string]interface{}{"v": 1.0}}, "list": []interface{}{1.0, 2.0}, "n": float64(g.Intn(5)),
 			"orders": []interface{}{map[string]interface{}{"paid": false}, []interface{}{map[string]interface{}{"x": 1.0}}}, "rand": g.Value(3)}
 		bs0 := gen.Canon(map[string]interface{}(bs))
@@ -232,20 +242,33 @@ func runIsolation(cfg Config) {
 			go func(k int) {
 				defer wg.Done()
 				mine := match.Bindings(gen.DeepCopy(map[string]interface{}(bs)).(map[string]interface{}))
-				if k%2 == 0 {
-					interp.Exec(ctx, mine, nil, pol, polProg)
-				} else {
-					e, err := interp.Exec(ctx, mine, nil, probeScript, probeProg)
-					if !pristine(e, err, mine) {
-						mu.Lock()
-						okc = false
-						mu.Unlock()
+				// every execution has data of its own: whatever it sees must be its own
+				mine["owner"] = fmt.Sprintf("machine-%04d-%d", i, k)
+				mine["payload"] = strings.Repeat(fmt.Sprintf("%02d", k), 64)
+				for r := 0; r < 6; r++ {
+					if k%2 == 0 {
+						interp.Exec(ctx, mine, nil, pol, polProg)
+					} else {
+						e, err := interp.Exec(ctx, mine, nil, probeScript, probeProg)
+						if !pristine(e, err, mine) {
+							mu.Lock()
+							okc = false
+							mu.Unlock()
+						}
 					}
 				}
 			}(k)
 		}
 		wg.Wait()
 		probe["concurrentPristine"] = okc
+		// executions without step properties share nothing through `_.props` either
+		interp.Exec(ctx, bs, nil, `if (_.props) { _.props.planted = 1; } return {};`, nil)
+		if e, err := interp.Exec(ctx, bs, nil, `return {"seen": !!(_.props && _.props.planted === 1)};`, nil); err == nil && e != nil && e.Bs != nil {
+			probe["propsNotShared"] = e.Bs["seen"] == false
+		}
+		if e, err := es.NewInterpreter().Exec(ctx, bs, core.StepProps{}, `return {"seen": !!(_.props && _.props.planted === 1)};`, nil); err == nil && e != nil && e.Bs != nil && e.Bs["seen"] != false {
+			probe["propsNotShared"] = false
+		}
 		// step properties: a script must not be able to change the caller's
 		if g.P(1, 2) {
 			feat = append(feat, "propsMutator")
@@ -280,7 +303,6 @@ var finishers = []string{
 
 func runTimeouts(cfg Config) {
 	enc := json.NewEncoder(out)
-	g := gen.New(cfg.Seed)
 	interp := es.NewInterpreter()
 	// warm up, then take the goroutine baseline
 	func() {
@@ -290,7 +312,13 @@ func runTimeouts(cfg Config) {
 	}()
 	time.Sleep(50 * time.Millisecond)
 	for i := 0; i < cfg.N; i++ {
+		g := gen.New(cfg.Seed*1000003 + int64(i)) // one stream per case: skipping a case leaves the others as they were
 		mark(i)
+		if crashedCases[i] {
+			// the process died while running this case in an earlier attempt
+			enc.Encode(probeLine(i, map[string]interface{}{"crashed": fatalText}, map[string]interface{}{"noPanic": false}, []string{"crashed"}))
+			continue
+		}
 		src := spinners[g.Intn(len(spinners))]
 		deadline := []int{0, 1, 5, 20, 80, 200}[g.Intn(6)]
 		conc := []int{1, 1, 4, 16}[g.Intn(4)]
@@ -341,7 +369,64 @@ func runTimeouts(cfg Config) {
 				mu.Unlock()
 			}()
 		}
-		wg.Wait()
+		// an execution that does not come back at all (well past its deadline and its cancellation)
+		// would hang the run: it is reported, and the run ends with this case
+		hung := false
+		{
+			done := make(chan bool)
+			go func() { wg.Wait(); close(done) }()
+			select {
+			case <-done:
+			case <-time.After(time.Duration(deadline)*time.Millisecond + 6*time.Second):
+				hung = true
+			}
+		}
+		if hung {
+			enc.Encode(probeLine(i, map[string]interface{}{"script": src, "deadlineMs": deadline, "concurrency": conc, "cancelAtMs": cancelAt, "hung": true},
+				map[string]interface{}{"stopsWithError": false, "prompt": false}, []string{"hung"}))
+			return
+		}
+		// many more executions than processors, most of them long-running: a short one among them
+		// still ends at its own deadline or cancellation
+		if i%15 == 7 {
+			long := runtime.GOMAXPROCS(0) + 4
+			var cw sync.WaitGroup
+			crowdPrompt := true
+			for k := 0; k < long; k++ {
+				cw.Add(1)
+				go func() {
+					defer cw.Done()
+					ctx, cancel := context.WithTimeout(context.Background(), 1800*time.Millisecond)
+					defer cancel()
+					interp.Exec(ctx, match.NewBindings(), nil, spinners[0], nil)
+				}()
+			}
+			time.Sleep(20 * time.Millisecond)
+			for k := 0; k < 4; k++ {
+				cw.Add(1)
+				go func(k int) {
+					defer cw.Done()
+					ctx, cancel := context.WithTimeout(context.Background(), 50*time.Millisecond)
+					defer cancel()
+					if k%2 == 1 {
+						ctx, cancel = context.WithCancel(context.Background())
+						defer cancel()
+						go func() { time.Sleep(50 * time.Millisecond); cancel() }()
+					}
+					t0 := time.Now()
+					interp.Exec(ctx, match.NewBindings(), nil, spinners[0], nil)
+					if time.Since(t0) > 50*time.Millisecond+900*time.Millisecond {
+						mu.Lock()
+						crowdPrompt = false
+						mu.Unlock()
+					}
+				}(k)
+			}
+			cw.Wait()
+			if !crowdPrompt {
+				prompt = false
+			}
+		}
 		// no goroutine started for the execution outlives the call (after a grace period)
 		leaked := true
 		for w := 0; w < 40; w++ {
@@ -426,9 +511,14 @@ func specObjects(s *core.Spec) string {
 
 func runConcurrent(cfg Config) {
 	enc := json.NewEncoder(out)
-	g := gen.New(cfg.Seed)
 	for i := 0; i < cfg.N; i++ {
+		g := gen.New(cfg.Seed*1000003 + int64(i)) // one stream per case: skipping a case leaves the others as they were
 		mark(i)
+		if crashedCases[i] {
+			// the process died while running this case in an earlier attempt
+			enc.Encode(probeLine(i, map[string]interface{}{"crashed": fatalText}, map[string]interface{}{"noPanic": false}, []string{"crashed"}))
+			continue
+		}
 		c1 := g.WalkCase("walk")
 		c2 := g.WalkCase("walk")
 		l := 12
@@ -522,6 +612,30 @@ func runConcurrent(cfg Config) {
 				probe["specUntouched"] = false
 			}
 			probe["specObjectsKept"] = specObjects(s1) == objs
+			// a version derived from the published one (Spec.Copy), edited and compiled, leaves the
+			// published one as it is
+			func() {
+				defer func() {
+					if r := recover(); r != nil {
+						probe["copyIndependent"] = false
+					}
+				}()
+				before := specSnapshot(s1)
+				cp := s1.Copy("v2")
+				for _, n := range cp.Nodes {
+					if n == nil || n.Branches == nil {
+						continue
+					}
+					for _, b := range n.Branches.Branches {
+						if b != nil {
+							b.Target = "elsewhere"
+							b.Pattern = map[string]interface{}{"edited": true}
+						}
+					}
+				}
+				cp.Compile(context.Background(), nil, true)
+				probe["copyIndependent"] = specSnapshot(s1) == before && specObjects(s1) == objs
+			}()
 		}()
 		enc.Encode(probeLine(i, map[string]interface{}{"spec": c1.Spec, "spec2": c2.Spec}, probe, []string{"walks24", "swap"}))
 	}
